@@ -3,8 +3,8 @@ import SamVerif.Model.Doc
 # Model of the block-comment text normalisation `post_process_block_comment`
 (`crates/samlang-parser/src/lexer.rs`, inside `lex_block_comment_opt`)
 
-The body of a `/* .. */` / `/** .. */` token is split at `\n`; every line is `trim_start`ed; if it then
-starts with `*`, exactly ONE star is dropped and the rest trimmed, otherwise the line is `trim_end`ed;
+The body of a `/* .. */` / `/** .. */` token is split at `\n`; every line is `trim_start`ed; a continuation
+line (index > 0) that then starts with `*` loses exactly ONE star and is trimmed, any other line is `trim_end`ed;
 empty lines are dropped and the rest joined by one blank. (Own small model over `List Char`, independent
 of builder-C05's byte-level `Model/Lexer.lean`; tied by protocol `ctext` against the real lexer.)
 The printer's multi-line layout of a comment (`Document::multiline_comment`) writes every line as
@@ -19,7 +19,7 @@ def trimStart (s : Str) : Str := s.dropWhile isWs
 def trimEnd (s : Str) : Str := (s.reverse.dropWhile isWs).reverse
 def trim (s : Str) : Str := trimEnd (trimStart s)
 
-/-- One line of the body (lexer.rs, the closure in `post_process_block_comment`). -/
+/-- A continuation line of the body (line index > 0; lexer.rs, the closure in `post_process_block_comment`). -/
 def stripLine (line : Str) : Str :=
   match trimStart line with
   | '*' :: r => trim r
@@ -30,8 +30,13 @@ def joinSp : List Str → Str
   | [x] => x
   | x :: y :: rest => x ++ ' ' :: joinSp (y :: rest)
 
+/-- The opener's own line (what follows `/*`): never star-stripped (since /repo fix of finding C09-F9). -/
+def stripOpener (line : Str) : Str := trimEnd (trimStart line)
+
 def postProcess (body : Str) : Str :=
-  joinSp (((splitNl body).map stripLine).filter (fun l => !l.isEmpty))
+  match splitNl body with
+  | [] => []
+  | first :: rest => joinSp ((stripOpener first :: rest.map stripLine).filter (fun l => !l.isEmpty))
 
 /-- What the printer writes for one continuation line: indentation, ` * `, the words. -/
 def reflowLine (indent : Nat) (ws : List Str) : Str :=
